@@ -1452,7 +1452,11 @@ class Authenticated(BaseClientHandler):
                     sorted(cmd.msg_set_as_set) if cmd.msg_set_as_set else []
                 )
                 async for idx, results in self.mbox.fetch(
-                    msg_set, cmd.fetch_atts, cmd.uid_command, cmd.timeout_cm
+                    msg_set,
+                    cmd.fetch_atts,
+                    cmd.uid_command,
+                    cmd.timeout_cm,
+                    read_only=self.examine,
                 ):
                     msg = b"* %(idx)d FETCH (%(results)b)\r\n" % {
                         b"idx": idx,
@@ -1504,6 +1508,11 @@ class Authenticated(BaseClientHandler):
                 "Your selected mailbox no longer exists"
             )
             return
+
+        # A mailbox selected with EXAMINE is read-only.
+        #
+        if self.examine:
+            raise No("Mailbox is read-only")
 
         # If this client has pending EXPUNGE messages then we return a
         # tagged No response.. the client should see this and do a NOOP or
